@@ -343,6 +343,67 @@ def unreachable_code(R, ctx, rid="C01.early-return"):
     R.meta[rid] = {"programs": n, "oracles_per_program": 2 ** nbits}
 
 
+def empty_do_rule(R, ctx, rid="C01.empty-do"):
+    """remove_empty_do as a whole: a `do` goes only when nothing is left inside it."""
+    import itertools
+    from .. import peval, astmodel
+    from ..peval import make, UNKNOWN
+    lib = ctx.lib
+    R.rule(rid, "the rule whose processor lives beside it in rules/empty_do.rs, evaluated as a whole (its flawless_process: visitor walk and "
+                "fix-point loop) on `<do X end> after()` inside a function body, a loop and at top level, for every X of a recursive domain "
+                "(empty / break / return / continue / a call / nested do blocks of these, 2 levels / empty do followed by break): the tree "
+                "left equals the reference -- a `do` disappears exactly when its block, cleaned the same way, has no statement and no last "
+                "statement. `do break end`, `do return end`, `do continue end` change control flow when they go")
+    B = astmodel.Builder(lib)
+    rules = [f for k, f in lib.fns.items() if k.endswith("FlawlessRule>::flawless_process") and f.get("file", "").endswith("rules/empty_do.rs") and thir.body_of(f)]
+    if not R.require(rid, "anchor:rule", not B.missing and len(rules) == 1, "", "the rule of rules/empty_do.rs: %s" % [f["path"] for f in rules]):
+        return
+    fn = rules[0]
+    leaves = {"": lambda: B.block(), "break": lambda: B.block([], B.brk()), "return": lambda: B.block([], B.ret()),
+              "continue": lambda: B.block([], B.cont()), "f()": lambda: B.block([B.mark("f")])}
+    inners = dict(leaves)
+    for n, mk in leaves.items():
+        inners["do %s end" % n] = lambda mk=mk: B.block([B.do(mk())])
+        inners["do end do %s end" % n] = lambda mk=mk: B.block([B.do(B.block()), B.do(mk())])
+        inners["do do %s end end" % n] = lambda mk=mk: B.block([B.do(B.block([B.do(mk())]))])
+        inners["do end %s" % n] = lambda mk=mk: (lambda b: (b.fields["statements"].insert(0, B.do(B.block())), b)[1])(mk())
+    wraps = {"top": lambda d: B.block([d, B.mark("after")]),
+             "while": lambda d: B.block([B.while_("c", B.block([d, B.mark("after")]))]),
+             "function": lambda d: B.block([B.local_function("g", B.block([d, B.mark("after")]))])}
+
+    def clean(b):
+        b = astmodel._unbox(b)
+        keep = []
+        for st in b.fields["statements"]:
+            node = astmodel._unbox(st.fields["0"])
+            for k in ("block",):
+                if isinstance(node, peval.Struct) and k in node.fields:
+                    clean(node.fields[k])
+            if st.variant == "Do":
+                inner = astmodel._unbox(node.fields["block"])
+                ls = inner.fields.get("last_statement")
+                if not inner.fields["statements"] and not (isinstance(ls, peval.Enum) and ls.variant == "Some"):
+                    continue
+            keep.append(st)
+        b.fields["statements"][:] = keep
+    bad, n = [], 0
+    for (wn, wrap), (iname, mk) in itertools.product(wraps.items(), inners.items()):
+        got, want = wrap(B.do(mk())), wrap(B.do(mk()))
+        clean(want)
+        pe = peval.PEval(lib, ctx.an, fuel=3000000, max_depth=80)
+        try:
+            pe.call_fn(fn, [make(lib, fn["self_tys"]), got, UNKNOWN])
+            text = astmodel.show(got)
+        except peval.OutOfFuel:
+            text = None
+        n += 1
+        if pe.unknown_reasons or text != astmodel.show(want):
+            bad.append(("%s: do %s end" % (wn, iname), pe.unknown_reasons[:2] or text, astmodel.show(want)))
+    R.ob(rid, "rule|equals-reference", not bad, ctx.where(fn), "%d trees: only blocks with nothing left in them are removed" % n if not bad else
+         "%s -> %r, the reference leaves %r (%d of %d trees differ)" % (bad[0][0], bad[0][1], bad[0][2], len(bad), n))
+    R.require(rid, "floor:trees", n >= 60, "", "%d trees evaluated" % n)
+
+
 def run(R, ctx):
     R.explanation = (
         "Guard-before-act and contradiction rules on typed THIR for the three mechanisms the property anchors: side-effect analysis before "
@@ -368,3 +429,4 @@ def run(R, ctx):
     from . import c08
     c08.if_effects(R, ctx, "C01.if-effects")
     unreachable_code(R, ctx)
+    empty_do_rule(R, ctx)
